@@ -145,6 +145,10 @@ impl BitVector {
 
         if value {
             self.data[word_idx] |= 1 << bit_idx;
+        } else {
+            // The last word may carry set bits beyond `len` (after `not()`, `ones()`,
+            // or and/or/xor of vectors with different lengths).
+            self.data[word_idx] &= !(1 << bit_idx);
         }
 
         self.len += 1;
